@@ -45,7 +45,9 @@ func (h *H) phaseTyped() {
 				continue
 			}
 			g := &Gen{R: h.rng("typed", ci), rawLimbs: true}
-			v := g.Value(st.t, Cfg(i, false))
+			// strings that are not valid UTF-8 included: the model must accept / reject them exactly as
+			// the configured decoder does
+			v := g.Value(st.t, Cfg(i, i%5 == 4))
 			h.typedCase(st, ci, v, mode)
 		}
 	}
@@ -106,7 +108,7 @@ func (h *H) typedCase(st storable, ci int, v reflect.Value, mode string) {
 	res := h.res
 	enc, err := marshalAs(st.t, v)
 	if err != nil {
-		res.Note("typed: marshal %s: %v", st.name, err)
+		h.marshalFailed("typed", ci, st.name, v.Interface(), err)
 		return
 	}
 	res.Case("typed/"+st.name+"/"+hx(enc), len(enc) > 8)
